@@ -32,6 +32,8 @@ type fspec struct {
 	pre, post  []*aspec
 	children   []*fspec
 	errKind    int
+	// top-level frame only: Aspects of the transaction-level join points (before the frame is announced, after it ended)
+	preTx, postTx []*aspec
 }
 
 type aspec struct {
@@ -106,6 +108,7 @@ func (em *emitter) frame(f *fspec, from common.Address, top bool) {
 	}
 	if top {
 		em.evs = append(em.evs, ct.Ev{K: ct.TxStart, Gas: 9_000_000})
+		em.aspects(f.preTx, 2, from, to)
 		em.evs = append(em.evs, ct.Ev{K: ct.Start, From: from, To: to, Create: f.typ == h.CREATE, Input: in, Gas: gas, Value: value})
 	} else {
 		em.evs = append(em.evs, ct.Ev{K: ct.Enter, Typ: f.typ, From: from, To: to, Input: in, Gas: gas, Value: value})
@@ -118,6 +121,7 @@ func (em *emitter) frame(f *fspec, from common.Address, top bool) {
 	out, err := resultFor(f.errKind, id)
 	if top {
 		em.evs = append(em.evs, ct.Ev{K: ct.End, Output: out, GasUsed: uint64(1000 + id), Err: err})
+		em.aspects(f.postTx, 16, from, to)
 		em.evs = append(em.evs, ct.Ev{K: ct.TxEnd, Gas: 9_000_000 - uint64(1000+id)})
 	} else {
 		em.evs = append(em.evs, ct.Ev{K: ct.Exit, Output: out, GasUsed: uint64(1000 + id), Err: err})
@@ -486,6 +490,12 @@ func activePrecompileSet() map[common.Address]bool {
 // streamClass names the Aspect-related features of a stream (part of the finding key).
 func streamClass(root *ct.Node) string {
 	callInAspect, multi, nestedJP := false, false, false
+	txLevel := false
+	for _, a := range root.JPs {
+		if a.JP == 2 || a.JP == 16 {
+			txLevel = true
+		}
+	}
 	root.Walk(func(n *ct.Node) {
 		if n.IsAspect && len(n.Calls) > 0 {
 			callInAspect = true
@@ -493,9 +503,10 @@ func streamClass(root *ct.Node) string {
 		if !n.IsAspect {
 			pre, post := 0, 0
 			for _, a := range n.JPs {
-				if a.JP == 4 {
+				switch a.JP {
+				case 4:
 					pre++
-				} else {
+				case 8:
 					post++
 				}
 			}
@@ -516,6 +527,9 @@ func streamClass(root *ct.Node) string {
 	}
 	if nestedJP {
 		parts = append(parts, "nested-jp")
+	}
+	if txLevel {
+		parts = append(parts, "tx-level-jp")
 	}
 	if len(parts) == 0 {
 		return "plain"
@@ -674,6 +688,16 @@ func genFspecD(r *h.RNG, depth int, inAspect bool, maxDepth, maxWidth int) *fspe
 	}
 	if f.typ == h.CALL {
 		f.pre, f.post = asp(), asp()
+	}
+	if depth == 0 && r.Chance(35) {
+		// transaction-level join points (their Aspects issue no EVM calls here: such a call would itself be announced
+		// as a top-level frame)
+		for i, n := 0, r.Intn(3); i < n; i++ {
+			f.preTx = append(f.preTx, &aspec{errKind: r.Intn(5)})
+		}
+		for i, n := 0, r.Intn(3); i < n; i++ {
+			f.postTx = append(f.postTx, &aspec{errKind: r.Intn(5)})
+		}
 	}
 	if depth < maxDepth {
 		w := r.Intn(maxWidth + 1)
